@@ -86,8 +86,8 @@ func (f *fRoot) Read() string                              { return "(x " + hexB
 
 // ---- byte / bit collections ----
 type fByteVec struct {
-	b []byte
-	n uint64
+	b     []byte
+	n     uint64
 	asSeq bool // Vector[uint8,n] (value printed as a seq) vs BytesN
 }
 
